@@ -247,6 +247,92 @@ fn during_resize(mode: u8, forwarded_before: u64, key_sel: u64) -> Result<(bool,
     Ok((met_marker, finished_while_resize_open))
 }
 
+/// compute_if_present with a panicking closure on a key of a tree bin while `readers` other
+/// threads are inside that tree (holding its read lock). After the panic the readers leave; the
+/// tree lock must be free again, a writer that needs the root lock must get it, and the map must
+/// equal the model.
+fn with_readers_inside(mode: u8, nkeys: u64, readers: usize, key: u64) -> Result<(), String> {
+    use crate::orch::Actor;
+    use flurry::verif as fvf;
+    let map: Arc<Map> = Arc::new(Map::with_capacity_and_hasher(64, HB::new(mode)));
+    let mut model = Model::new();
+    {
+        let g = map.guard();
+        for k in 0..nkeys {
+            map.insert(TKey::new(k, 0), TVal::new(100 + k), &g);
+            model.insert(k, (0, 100 + k));
+        }
+    }
+    let mut inside = Vec::new();
+    for r in 0..readers {
+        let m = map.clone();
+        let rk = (key + 1 + r as u64) % nkeys;
+        let a = Actor::spawn(&format!("reader-{r}"), 10 + r as u16, |g| g.arm_site(fvf::WIN_TREE_READ_LOCKED, 1), move || {
+            let g = m.guard();
+            let _ = m.get(&KQ(rk), &g).map(|v| v.get());
+        });
+        if !a.wait_frozen_or_done(20_000).map_err(|e| format!("INCONCLUSIVE {e}"))? {
+            return Err("INCONCLUSIVE the reader did not take the tree read lock (no tree bin?)".into());
+        }
+        inside.push(a);
+    }
+    QUIET_PANICS.with(|q| q.set(true));
+    let r = std::panic::catch_unwind(std::panic::AssertUnwindSafe(|| {
+        let g = map.guard();
+        map.compute_if_present(&KQ(key), |_, _| -> Option<TVal> { std::panic::panic_any(Injected) }, &g);
+    }));
+    QUIET_PANICS.with(|q| q.set(false));
+    let _ = last_panic();
+    if !matches!(&r, Err(p) if p.is::<Injected>()) {
+        return Err("the injected panic did not reach the caller of compute_if_present".into());
+    }
+    for a in inside {
+        a.gate.release();
+        a.wait_done(20_000).map_err(|e| format!("a reader that was inside the tree during the panic did not finish: {e}"))?;
+        a.join()?;
+    }
+    let mut st = SeqStats::default();
+    audit_map(&map, mode, Some(&model), false, &mut st).map_err(|f| format!("after the panic, once the readers had left: {}", f.detail))?;
+    // writers that need the root lock: removals and inserts with rebalancing on the same bin
+    let done = Arc::new(AtomicBool::new(false));
+    let (m, d) = (map.clone(), done.clone());
+    let tid = Arc::new(std::sync::atomic::AtomicI64::new(0));
+    let t = tid.clone();
+    let h = std::thread::spawn(move || {
+        #[cfg(not(miri))]
+        t.store(unsafe { libc::syscall(libc::SYS_gettid) } as i64, Ordering::SeqCst);
+        let _ = &t;
+        let g = m.guard();
+        for k in 0..nkeys {
+            m.remove(&KQ(k), &g);
+        }
+        for k in 0..nkeys {
+            m.insert(TKey::new(k, 1), TVal::new(100 + k), &g);
+        }
+        d.store(true, Ordering::SeqCst);
+    });
+    let t0 = std::time::Instant::now();
+    while !done.load(Ordering::SeqCst) {
+        if t0.elapsed().as_secs() >= 8 {
+            #[cfg(not(miri))]
+            {
+                let st = thread_state(tid.load(Ordering::SeqCst));
+                if st == 'S' {
+                    return Err("removals and inserts on the bin by another thread did not return within 8 s and the thread is asleep (state S): the tree lock was left in a state nobody will release".into());
+                }
+            }
+            return Err("INCONCLUSIVE follow-up writer slow".into());
+        }
+        std::thread::yield_now();
+    }
+    h.join().map_err(|_| "the follow-up writer panicked".to_string())?;
+    for k in 0..nkeys {
+        model.insert(k, (1, 100 + k));
+    }
+    audit_map(&map, mode, Some(&model), false, &mut st).map_err(|f| format!("after the follow-up writes: {}", f.detail))?;
+    Ok(())
+}
+
 pub fn run(ctx: &Ctx) -> Outcome {
     let mut out = Outcome::new(
         "for each prepared map (random build sequence; hashers uniform/constant/samebin/mixed; list and tree bins) and each operation in \
@@ -273,6 +359,32 @@ pub fn run(ctx: &Ctx) -> Outcome {
                         Err(e) => {
                             out.violate("c18/compute-during-resize", format!("hasher {}, resizer stopped after {fwd} forwarded bins, key {key}: {e}", mode_name(mode)), Json::obj().with("check", Json::s("c18")).with("part", Json::s("during-resize")).with("hasher", Json::s(mode_name(mode))).with("forwarded", Json::u(fwd)).with("key", Json::u(key)));
                             return out;
+                        }
+                    }
+                }
+            }
+        }
+    }
+    if ctx.shard == 0 {
+        for mode in [CONSTANT, SAMEBIN, MODGROUPS] {
+            for nkeys in [9u64, 14, 30] {
+                for readers in [1usize, 2, 3] {
+                    for key in [0u64, nkeys / 2, nkeys - 1] {
+                        out.evaluations += 1;
+                        out.add("injections_with_readers_inside_the_tree", 1);
+                        out.distinct.insert(fnv(fnv(fnv(fnv(FNV_OFFSET ^ 0x18f, mode as u64), nkeys), readers as u64), key));
+                        ledger().reset();
+                        match guarded(|| with_readers_inside(mode, nkeys, readers, key)).unwrap_or_else(Err) {
+                            Ok(()) => {}
+                            Err(e) if e.starts_with("INCONCLUSIVE") => out.inconclusive.push(e),
+                            Err(e) => {
+                                out.violate(
+                                    "c18/compute-with-readers-inside",
+                                    format!("hasher {}, tree bin of {nkeys} keys, {readers} reader(s) inside the tree, panicking compute_if_present on key {key}: {e}", mode_name(mode)),
+                                    Json::obj().with("check", Json::s("c18")).with("part", Json::s("readers-inside")).with("hasher", Json::s(mode_name(mode))).with("keys", Json::u(nkeys)).with("readers", Json::u(readers)).with("key", Json::u(key)),
+                                );
+                                return out;
+                            }
                         }
                     }
                 }
